@@ -104,8 +104,8 @@ Proof.
   replace (length rest <=? length str) with true by (symmetry; apply Nat.leb_le; lia).
   destruct (Nat.eqb_spec (length rest) 0) as [E|E].
   - exists (t ++ rest), (length t). split; reflexivity.
-  - replace (t ++ rest) with (t ++ rest ++ []) at 1 by (rewrite app_nil_r; reflexivity).
-    rewrite (csl_ok (firstn (length rest - 1) str ++ [0%N]) t rest []).
+  - pose proof (csl_ok (firstn (length rest - 1) str ++ [0%N]) t rest [] (length t) fl) as Hc.
+    rewrite app_nil_r in Hc. rewrite Hc.
     2:{ rewrite app_length, firstn_length. cbn [length]. lia. }
     eexists. eexists. split; [reflexivity|].
     rewrite !app_length, firstn_length. cbn [length]. lia.
@@ -181,7 +181,11 @@ Proof.
     destruct (v_size v) as [|n]; [lia|]. cbn [firstn map].
     eexists. eexists. split; [reflexivity|]. intro c. reflexivity.
   - right. right. injection Ht as <-. rewrite Elt.
-    unfold fmt_bufstr_pieces. eexists. eexists. split; [reflexivity|]. intro c. reflexivity.
+    unfold fmt_bufstr_pieces.
+    exists [ch_QUOTE].
+    exists (str_body_pieces match v_access v with WO => [] | _ => firstn (v_size v) data end
+            ++ [[ch_QUOTE]]).
+    split; [reflexivity|]. intro c. reflexivity.
 Qed.
 
 Lemma fmt_var_ok : forall v data txt t rest,
@@ -213,4 +217,484 @@ Proof.
   - apply pnum_fail. exact Hfit.
   - apply pnums_fail. exact Hfit.
   - apply pp_fail. exact Hfit.
+Qed.
+
+(* ================= 3. READ: the formatting loop at the level of the object state ================= *)
+
+Lemma set_st_set_st : forall (ioS muS hS : Type) (a b : state) (w : world ioS muS hS),
+  set_st ioS muS hS a (set_st ioS muS hS b w) = set_st ioS muS hS a w.
+Proof. reflexivity. Qed.
+
+Lemma join_comma_cons2 : forall (x y : list N) r,
+  join_comma (x :: y :: r) = x ++ ch_COMMA :: join_comma (y :: r).
+Proof. reflexivity. Qed.
+
+Lemma join_comma_one : forall x : list N, join_comma [x] = x.
+Proof. intro x. cbn [join_comma map concat]. apply app_nil_r. Qed.
+
+Section C07e.
+Variable D : desc.
+
+Definition slot_text (m : list (list N)) (v : var) : option (list N) :=
+  match nth_error m (v_slot v) with Some d => var_text v d | None => None end.
+
+(* what format_read_args does to the object state for a variable without read callback *)
+Definition fra_rest (c : cmd) (s1 : state) : state :=
+  let (s2, handled) := next_format_var D ATCMD s1 in
+  if handled then s2
+  else if c_hread c then set_loop_state ATCMD true s2
+  else start_flush_after_ok ATCMD s2.
+
+Definition fra_state (c : cmd) (v : var) (s : state) : state :=
+  match nth_error (mem s) (v_slot v) with
+  | None => set_fault_flag s
+  | Some data =>
+    let (c1, ok) := fmt_var v data (get_cur ATCMD s) in
+    let s1 := put_cur ATCMD c1 s in
+    if negb ok then end_with_error ATCMD s1 else fra_rest c s1
+  end.
+
+Definition RInv (c : cmd) (m : list (list N)) (s : state) (i : nat) (t rest nl : list N)
+           (bsz : nat) : Prop :=
+  BInv D ATCMD c s t rest nl bsz /\ k_var (k s) = i /\ k_index (k s) = i /\
+  k_state (k s) = CS_FORMAT_READ_ARGS /\ mem s = m.
+
+Definition RDone (m : list (list N)) (s : state) (txt : list N) (bsz : nat) : Prop :=
+  fault s = false /\ (exists r, cbuf s = txt ++ 0%N :: r) /\ length (cbuf s) = bsz /\
+  k_state (k s) = CS_FLUSH_WAIT /\ k_wafter (k s) = CS_AFTER_OK /\ mem s = m.
+
+Definition RFail (m : list (list N)) (bsz : nat) (s : state) : Prop :=
+  fault s = false /\ k_state (k s) = CS_FLUSH_WAIT /\ k_wafter (k s) = CS_AFTER_RESET /\
+  (6 <= bsz -> text_of (cbuf s) = txt_ERROR) /\ mem s = m.
+
+Lemma rfail_state : forall m s b pos, fault s = false -> mem s = m ->
+  length b = length (cbuf s) ->
+  RFail m (length (cbuf s)) (end_with_error ATCMD (setg_pos ATCMD pos (setg_buf ATCMD b s))).
+Proof.
+  intros m s b pos Hf Hm Hb.
+  unfold RFail, end_with_error. cbn [setg_pos setg_buf].
+  repeat split; try reflexivity; try assumption.
+  intro H6.
+  destruct (ack_error_props (setk_position pos (set_cbuf b s))) as (A1 & A2 & A3 & A4).
+  { cbn. lia. }
+  exact A4.
+Qed.
+
+Lemma put_cur_nofault : forall b p s,
+  put_cur ATCMD (mkCur b p false) s = setg_pos ATCMD p (setg_buf ATCMD b s).
+Proof. reflexivity. Qed.
+
+Lemma fra_print_ok : forall c m s i t rest nl bsz v data txt,
+  RInv c m s i t rest nl bsz -> nth_error m (v_slot v) = Some data ->
+  var_text v data = Some txt -> length data = v_size v -> (v_type v = VBufHex -> 0 < v_size v) ->
+  length txt < length rest ->
+  exists s1 r', RInv c m s1 i (t ++ txt) (0%N :: r') nl bsz /\
+                length txt + S (length r') = length rest /\
+                fra_state c v s = fra_rest c s1.
+Proof.
+  intros c m s i t rest nl bsz v data txt (HB & Hv & Hi & Hst & Hm) Hd Ht Hl Hhex Hfit.
+  pose proof HB as (H1 & H2 & H3 & H4 & H5 & H6).
+  unfold fra_state. rewrite Hm, Hd. unfold get_cur. rewrite H3, H4.
+  destruct (fmt_var_ok v data txt t rest Ht Hl Hhex Hfit) as [r' [E L]]. rewrite E.
+  cbn [negb]. rewrite put_cur_nofault.
+  eexists. exists r'. split; [|split; [exact L|reflexivity]].
+  unfold RInv. split; [apply (BInv_set D ATCMD c s t rest); [exact HB|]|].
+  - rewrite app_length. cbn [length]. lia.
+  - cbn. auto.
+Qed.
+
+Lemma fra_print_fail : forall c m s i t rest nl bsz v data txt,
+  RInv c m s i t rest nl bsz -> nth_error m (v_slot v) = Some data ->
+  var_text v data = Some txt -> length data = v_size v -> (v_type v = VBufHex -> 0 < v_size v) ->
+  length rest <= length txt ->
+  RFail m bsz (fra_state c v s).
+Proof.
+  intros c m s i t rest nl bsz v data txt (HB & Hv & Hi & Hst & Hm) Hd Ht Hl Hhex Hfit.
+  pose proof HB as (H1 & H2 & H3 & H4 & H5 & H6).
+  unfold fra_state. rewrite Hm, Hd. unfold get_cur. rewrite H3, H4.
+  destruct (fmt_var_fail v data txt t rest Ht Hl Hhex Hfit) as [b [pos [E L]]]. rewrite E.
+  cbn [negb]. rewrite put_cur_nofault.
+  cbn [g_buf] in H3.
+  replace bsz with (length (cbuf s)) by (rewrite H3, app_length; exact H6).
+  apply rfail_state; try assumption. rewrite H3. exact L.
+Qed.
+
+Lemma fra_more : forall c m s i t rest nl bsz v data txt,
+  RInv c m s i t rest nl bsz -> nth_error m (v_slot v) = Some data ->
+  var_text v data = Some txt -> length data = v_size v -> (v_type v = VBufHex -> 0 < v_size v) ->
+  length txt < length rest -> S i < length (c_vars c) ->
+  exists r', RInv c m (fra_state c v s) (S i) (t ++ txt ++ [ch_COMMA]) r' nl bsz /\
+             length txt + S (length r') = length rest.
+Proof.
+  intros c m s i t rest nl bsz v data txt HR Hd Ht Hl Hhex Hfit Hi.
+  destruct (fra_print_ok c m s i t rest nl bsz v data txt HR Hd Ht Hl Hhex Hfit)
+    as (s1 & r' & HR1 & L & E).
+  rewrite E. unfold fra_rest. destruct HR1 as (HB1 & Hv1 & Hi1 & Hst1 & Hm1).
+  destruct (nfv_more D ATCMD c s1 (t ++ txt) r' nl bsz HB1) as (s2 & E2 & HB2 & Hv2 & Hi2 & _).
+  { cbn [g_index]. rewrite Hi1. exact Hi. }
+  exists r'. split; [|exact L].
+  assert (Hs2 : k_state (k s2) = CS_FORMAT_READ_ARGS /\ mem s2 = m).
+  { unfold next_format_var in E2. destruct HB1 as (_ & H2 & H3 & H4 & _). rewrite H2 in E2.
+    destruct (S (g_index ATCMD s1) <? length (c_vars c)); [|discriminate].
+    match type of E2 with (if ?b then _ else _) = _ => destruct b eqn:Eb end.
+    - exfalso. apply Nat.leb_le in Eb. unfold g_bsz in Eb. cbn in Eb, H3, H4.
+      rewrite H3, H4, !app_length in Eb. cbn [length] in Eb. lia.
+    - injection E2 as <-. cbn. auto. }
+  rewrite E2. cbn [g_var g_index] in Hv2, Hi2.
+  unfold RInv. rewrite Hv2, Hi2, Hi1, app_assoc. destruct Hs2. auto.
+Qed.
+
+Lemma fra_last_ok : forall c m s i t rest nl bsz v data txt,
+  RInv c m s i t rest nl bsz -> nth_error m (v_slot v) = Some data ->
+  var_text v data = Some txt -> length data = v_size v -> (v_type v = VBufHex -> 0 < v_size v) ->
+  length txt < length rest -> length (c_vars c) <= S i -> c_hread c = false ->
+  RDone m (fra_state c v s) (t ++ txt) bsz.
+Proof.
+  intros c m s i t rest nl bsz v data txt HR Hd Ht Hl Hhex Hfit Hi Hrd.
+  destruct (fra_print_ok c m s i t rest nl bsz v data txt HR Hd Ht Hl Hhex Hfit)
+    as (s1 & r' & HR1 & L & E).
+  rewrite E. unfold fra_rest. destruct HR1 as (HB1 & Hv1 & Hi1 & Hst1 & Hm1).
+  pose proof HB1 as (H1 & H2 & H3 & H4 & H5 & H6).
+  rewrite (nfv_last D ATCMD c s1 H2) by (cbn [g_index]; rewrite Hi1; exact Hi).
+  rewrite Hrd. cbn [g_buf] in H3. unfold RDone. cbn.
+  rewrite H3. repeat split; try assumption.
+  - exists r'. reflexivity.
+  - rewrite !app_length in *. cbn [length] in *. lia.
+Qed.
+
+(* ---- the start: "name=" ---- *)
+Lemma vap_rw : forall c v vs a, c_vars c = v :: vs -> v_access v = RW -> vars_access_possible c a = true.
+Proof. intros c v vs a Hc Hv. unfold vars_access_possible. rewrite Hc. cbn [existsb]. rewrite Hv. reflexivity. Qed.
+
+Lemma read_start_ok : forall s ci c v vs,
+  g_cmd ATCMD s = Some ci -> nth_error (pool D) ci = Some c -> fault s = false ->
+  c_vars c = v :: vs -> v_access v = RW ->
+  length (c_name c) + 1 < length (cbuf s) ->
+  exists r, RInv c (mem s) (start_processing_format_read_args D ATCMD s) 0
+                 (c_name c ++ [ch_EQ]) (0%N :: r) (nl_chars s) (length (cbuf s)) /\
+            length (c_name c) + 1 + S (length r) = length (cbuf s).
+Proof.
+  intros s ci c v vs Hg Hc Hf Hvs Hrw Hl.
+  pose proof (BInv_start D ATCMD s ci c Hg Hc Hf) as HB0.
+  unfold start_processing_format_read_args. cbv zeta.
+  set (s0 := setg_pos ATCMD 0 s) in *. set (nl := nl_chars s) in *.
+  cbn [g_buf] in HB0. set (bsz := length (cbuf s)) in *.
+  pose proof HB0 as (_ & H2 & H3 & H4 & _). rewrite H2.
+  rewrite print_string_as_strings.
+  destruct (ps_ok ATCMD s0 [] (cbuf s) (c_name c) [] H3 H4) as [r1 [E1 L1]].
+  { cbn [concat]. rewrite app_nil_r. lia. }
+  rewrite E1. cbn [negb]. cbn [concat app] in E1, L1 |- *. rewrite app_nil_r in *.
+  assert (HB1 : BInv D ATCMD c (setg_pos ATCMD (length (c_name c))
+                                  (setg_buf ATCMD (c_name c ++ 0%N :: r1) s0))
+                     (c_name c) (0%N :: r1) nl bsz).
+  { apply (BInv_set D ATCMD c s0 [] (cbuf s)); [exact HB0|]. cbn [length] in *. lia. }
+  set (s1 := setg_pos ATCMD (length (c_name c)) (setg_buf ATCMD (c_name c ++ 0%N :: r1) s0)) in *.
+  pose proof HB1 as (_ & H2' & H3' & H4' & _).
+  rewrite print_string_as_strings.
+  destruct (ps_ok ATCMD s1 (c_name c) (0%N :: r1) [ch_EQ] [] H3' H4') as [r2 [E2 L2]].
+  { cbn [concat app length] in *. lia. }
+  rewrite E2. cbn [negb]. cbn [concat app] in E2, L2 |- *.
+  assert (HB2 : BInv D ATCMD c (setg_pos ATCMD (length (c_name c ++ [ch_EQ]))
+                            (setg_buf ATCMD ((c_name c ++ [ch_EQ]) ++ 0%N :: r2) s1))
+                     (c_name c ++ [ch_EQ]) (0%N :: r2) nl bsz).
+  { apply (BInv_set D ATCMD c s1 (c_name c) (0%N :: r1)); [exact HB1|].
+    rewrite app_length. cbn [length] in *. lia. }
+  rewrite (vap_rw c v vs RO Hvs Hrw).
+  exists r2. split; [|cbn [length] in *; lia].
+  unfold RInv. split; [|cbn; auto].
+  destruct HB2 as (B1 & B2 & B3 & B4 & B5 & B6).
+  unfold BInv. repeat split; assumption.
+Qed.
+
+Lemma read_start_fail : forall s ci c,
+  g_cmd ATCMD s = Some ci -> nth_error (pool D) ci = Some c -> fault s = false ->
+  length (cbuf s) <= length (c_name c) + 1 ->
+  RFail (mem s) (length (cbuf s)) (start_processing_format_read_args D ATCMD s).
+Proof.
+  intros s ci c Hg Hc Hf Hl.
+  pose proof (BInv_start D ATCMD s ci c Hg Hc Hf) as HB0.
+  unfold start_processing_format_read_args. cbv zeta.
+  set (s0 := setg_pos ATCMD 0 s) in *. set (nl := nl_chars s) in *.
+  cbn [g_buf] in HB0. set (bsz := length (cbuf s)) in *.
+  pose proof HB0 as (Hf0 & H2 & H3 & H4 & _). rewrite H2.
+  rewrite print_string_as_strings.
+  destruct (Nat.lt_ge_cases (length (c_name c)) bsz) as [Hlt|Hge].
+  2:{ destruct (ps_fail ATCMD s0 [] (cbuf s) (c_name c) [] H3 H4) as [b [pos [E L]]].
+      { cbn [concat]. rewrite app_nil_r. exact Hge. }
+      rewrite E. cbn [negb].
+      change bsz with (length (cbuf s0)). apply rfail_state; try assumption; reflexivity. }
+  destruct (ps_ok ATCMD s0 [] (cbuf s) (c_name c) [] H3 H4) as [r1 [E1 L1]].
+  { cbn [concat]. rewrite app_nil_r. exact Hlt. }
+  rewrite E1. cbn [negb]. cbn [concat app] in E1, L1 |- *. rewrite app_nil_r in *.
+  assert (HB1 : BInv D ATCMD c (setg_pos ATCMD (length (c_name c))
+                                  (setg_buf ATCMD (c_name c ++ 0%N :: r1) s0))
+                     (c_name c) (0%N :: r1) nl bsz).
+  { apply (BInv_set D ATCMD c s0 [] (cbuf s)); [exact HB0|]. cbn [length] in *. lia. }
+  set (s1 := setg_pos ATCMD (length (c_name c)) (setg_buf ATCMD (c_name c ++ 0%N :: r1) s0)) in *.
+  pose proof HB1 as (Hf1 & H2' & H3' & H4' & _).
+  rewrite print_string_as_strings.
+  destruct (ps_fail ATCMD s1 (c_name c) (0%N :: r1) [ch_EQ] [] H3' H4') as [b [pos [E L]]].
+  { cbn [concat app length] in *. lia. }
+  rewrite E. cbn [negb].
+  assert (Hlen1 : length (cbuf s1) = bsz).
+  { cbn [g_buf] in H3'. rewrite H3', app_length. cbn [length] in *. lia. }
+  rewrite <- Hlen1. apply rfail_state; try assumption; reflexivity.
+Qed.
+
+(* ---- the loop, on worlds with arbitrary oracles ---- *)
+Variables ioS muS hS : Type.
+Variable mu_lock : muS -> muS * bool.
+Variable mu_unlock : muS -> muS * bool.
+Variable h_call : hS -> hreq -> hS * hres.
+Local Notation world := (Fsm.world ioS muS hS).
+Local Notation st := (Fsm.st ioS muS hS).
+Local Notation tr := (Fsm.tr ioS muS hS).
+Local Notation hs := (Fsm.hs ioS muS hS).
+Local Notation set_st := (Fsm.set_st ioS muS hS).
+Local Notation upd_st := (Fsm.upd_st ioS muS hS).
+Local Notation fra_step := (fra_step D ioS muS hS mu_lock mu_unlock h_call).
+Local Notation fra_run := (fra_run D ioS muS hS mu_lock mu_unlock h_call).
+Local Notation read_response := (read_response D ioS muS hS mu_lock mu_unlock h_call).
+
+Lemma fra_step_eq : forall (w : world) c v,
+  cmd_of D ATCMD (st w) = Some c -> nth_error (c_vars c) (k_var (k (st w))) = Some v ->
+  v_hread v = false ->
+  fra_step w = set_st (fra_state c v (st w)) w.
+Proof.
+  intros w c v Hc Hn Hr. unfold Lemmas_C07e.fra_step, format_read_args.
+  unfold cmd_of in Hc |- *. destruct (g_cmd ATCMD (st w)) as [ci|] eqn:Eg; [|discriminate].
+  rewrite Hc. cbn [g_var]. rewrite Hn, Hr. reflexivity.
+Qed.
+
+Lemma fra_run_S : forall n (w : world),
+  fra_run (S n) w
+  = if cstate_beq (k_state (k (st w))) CS_FORMAT_READ_ARGS then fra_run n (fra_step w) else w.
+Proof. reflexivity. Qed.
+
+Lemma fra_run_stop : forall n (w : world), k_state (k (st w)) = CS_FLUSH_WAIT -> fra_run n w = w.
+Proof. intros [|n] w H; [reflexivity|]. rewrite fra_run_S, H. reflexivity. Qed.
+
+Lemma all_some_cons_st : forall m v vs txts,
+  all_some (map (slot_text m) (v :: vs)) = Some txts ->
+  exists txt txts', txts = txt :: txts' /\ slot_text m v = Some txt /\
+                    all_some (map (slot_text m) vs) = Some txts'.
+Proof.
+  intros m v vs txts H. cbn [map all_some] in H.
+  destruct (slot_text m v) as [txt|]; [|discriminate].
+  destruct (all_some (map (slot_text m) vs)) as [txts'|]; [|discriminate].
+  exists txt, txts'. repeat split; congruence.
+Qed.
+
+Lemma var_facts : forall m v txt, rt_var_ok m v -> slot_text m v = Some txt ->
+  exists data, nth_error m (v_slot v) = Some data /\ var_text v data = Some txt /\
+               length data = v_size v /\ (v_type v = VBufHex -> 0 < v_size v) /\
+               Forall (fun b => (b < 256)%N) data /\ (v_type v = VBufStr -> In 0%N data).
+Proof.
+  intros m v txt (_ & _ & _ & data & Hd & Hl & Hb & Hs & Hh & _) Ht.
+  unfold slot_text in Ht. rewrite Hd in Ht. exists data. auto 10.
+Qed.
+
+Lemma rloop_ok : forall c m nl bsz, c_hread c = false ->
+  forall vs v pre (w : world) t rest txts,
+  c_vars c = pre ++ v :: vs -> Forall (rt_var_ok m) (v :: vs) ->
+  RInv c m (st w) (length pre) t rest nl bsz ->
+  all_some (map (slot_text m) (v :: vs)) = Some txts ->
+  length (join_comma txts) < length rest ->
+  exists s', fra_run (length (v :: vs)) w = set_st s' w /\ RDone m s' (t ++ join_comma txts) bsz.
+Proof.
+  intros c m nl bsz Hrd.
+  induction vs as [|v2 vs IH]; intros v pre w t rest txts Hc Hok HR Ha Hl;
+    destruct (all_some_cons_st _ _ _ _ Ha) as (txt & txts' & -> & Hi & Ha');
+    inversion Hok as [|? ? Hokv Hokvs]; subst;
+    destruct (var_facts m v txt Hokv Hi) as (data & Hd & Ht & Hdl & Hhex & _);
+    destruct Hokv as (_ & Hnr & _);
+    pose proof (nth_mid _ pre v) as Hn;
+    pose proof HR as (HB & Hv & _ & Hst & _);
+    pose proof HB as (_ & Hcmd & _);
+    match goal with |- context [fra_run (length (?a :: ?b)) _] =>
+      change (length (a :: b)) with (S (length b)) end;
+    rewrite fra_run_S, Hst; cbn [cstate_beq].
+  - specialize (Hn []). rewrite <- Hc, <- Hv in Hn.
+    cbn [map all_some] in Ha'. injection Ha' as <-.
+    rewrite join_comma_one in *. cbn [length Lemmas_C07e.fra_run].
+    rewrite (fra_step_eq w c v Hcmd Hn Hnr).
+    eexists. split; [reflexivity|].
+    apply (fra_last_ok c m (st w) (length pre) t rest nl bsz v data txt); try assumption.
+    rewrite Hc, app_length. cbn [length]. lia.
+  - specialize (Hn (v2 :: vs)). rewrite <- Hc, <- Hv in Hn.
+    destruct (all_some_cons_st _ _ _ _ Ha') as (txt2 & txts2 & -> & Hi2 & Ha2).
+    rewrite join_comma_cons2 in *. rewrite app_length in Hl. cbn [length] in Hl.
+    rewrite (fra_step_eq w c v Hcmd Hn Hnr).
+    destruct (fra_more c m (st w) (length pre) t rest nl bsz v data txt HR Hd Ht Hdl Hhex)
+      as (r' & HR' & L); [lia| rewrite Hc, app_length; cbn [length]; lia |].
+    specialize (IH v2 (pre ++ [v]) (set_st (fra_state c v (st w)) w)
+                   (t ++ txt ++ [ch_COMMA]) r' (txt2 :: txts2)).
+    replace (length (pre ++ [v])) with (S (length pre)) in IH
+      by (rewrite app_length; cbn [length]; lia).
+    destruct IH as (s' & E & HD).
+    + rewrite Hc, <- app_assoc. reflexivity.
+    + exact Hokvs.
+    + exact HR'.
+    + exact Ha'.
+    + lia.
+    + exists s'. rewrite E, set_st_set_st. split; [reflexivity|].
+      replace (t ++ txt ++ ch_COMMA :: join_comma (txt2 :: txts2))
+        with ((t ++ txt ++ [ch_COMMA]) ++ join_comma (txt2 :: txts2))
+        by (rewrite <- !app_assoc; reflexivity).
+      exact HD.
+Qed.
+
+Lemma rloop_fail : forall c m nl bsz,
+  forall vs v pre (w : world) t rest txts,
+  c_vars c = pre ++ v :: vs -> Forall (rt_var_ok m) (v :: vs) ->
+  RInv c m (st w) (length pre) t rest nl bsz ->
+  all_some (map (slot_text m) (v :: vs)) = Some txts ->
+  length rest <= length (join_comma txts) ->
+  exists s', fra_run (length (v :: vs)) w = set_st s' w /\ RFail m bsz s'.
+Proof.
+  intros c m nl bsz.
+  induction vs as [|v2 vs IH]; intros v pre w t rest txts Hc Hok HR Ha Hl;
+    destruct (all_some_cons_st _ _ _ _ Ha) as (txt & txts' & -> & Hi & Ha');
+    inversion Hok as [|? ? Hokv Hokvs]; subst;
+    destruct (var_facts m v txt Hokv Hi) as (data & Hd & Ht & Hdl & Hhex & _);
+    destruct Hokv as (_ & Hnr & _);
+    pose proof (nth_mid _ pre v) as Hn;
+    pose proof HR as (HB & Hv & _ & Hst & _);
+    pose proof HB as (_ & Hcmd & _);
+    match goal with |- context [fra_run (length (?a :: ?b)) _] =>
+      change (length (a :: b)) with (S (length b)) end;
+    rewrite fra_run_S, Hst; cbn [cstate_beq].
+  - specialize (Hn []). rewrite <- Hc, <- Hv in Hn.
+    cbn [map all_some] in Ha'. injection Ha' as <-.
+    rewrite join_comma_one in *. cbn [length Lemmas_C07e.fra_run].
+    rewrite (fra_step_eq w c v Hcmd Hn Hnr).
+    eexists. split; [reflexivity|].
+    apply (fra_print_fail c m (st w) (length pre) t rest nl bsz v data txt); assumption.
+  - specialize (Hn (v2 :: vs)). rewrite <- Hc, <- Hv in Hn.
+    destruct (all_some_cons_st _ _ _ _ Ha') as (txt2 & txts2 & -> & Hi2 & Ha2).
+    rewrite join_comma_cons2 in *. rewrite app_length in Hl. cbn [length] in Hl.
+    rewrite (fra_step_eq w c v Hcmd Hn Hnr).
+    destruct (Nat.lt_ge_cases (length txt) (length rest)) as [Hlt|Hge].
+    2:{ pose proof (fra_print_fail c m (st w) (length pre) t rest nl bsz v data txt
+                      HR Hd Ht Hdl Hhex Hge) as HF.
+        eexists. split; [|exact HF].
+        apply fra_run_stop. destruct HF as (_ & F & _). exact F. }
+    destruct (fra_more c m (st w) (length pre) t rest nl bsz v data txt HR Hd Ht Hdl Hhex Hlt)
+      as (r' & HR' & L); [rewrite Hc, app_length; cbn [length]; lia |].
+    specialize (IH v2 (pre ++ [v]) (set_st (fra_state c v (st w)) w)
+                   (t ++ txt ++ [ch_COMMA]) r' (txt2 :: txts2)).
+    replace (length (pre ++ [v])) with (S (length pre)) in IH
+      by (rewrite app_length; cbn [length]; lia).
+    destruct IH as (s' & E & HD).
+    + rewrite Hc, <- app_assoc. reflexivity.
+    + exact Hokvs.
+    + exact HR'.
+    + exact Ha'.
+    + lia.
+    + exists s'. rewrite E, set_st_set_st. split; [reflexivity|exact HD].
+Qed.
+
+(* ---- no NUL inside the response text ---- *)
+Lemma notin0_join : forall txts : list (list N),
+  Forall (fun t => ~ In 0%N t) txts -> ~ In 0%N (join_comma txts).
+Proof.
+  intros [|x r] H; [intros []|]. inversion H as [|? ? Hx Hr]; subst.
+  cbn [join_comma]. intro Hin. apply in_app_or in Hin. destruct Hin as [Hin|Hin]; [exact (Hx Hin)|].
+  apply in_concat in Hin. destruct Hin as (l & Hl & H0).
+  apply in_map_iff in Hl. destruct Hl as (y & <- & Hy).
+  destruct H0 as [H0|H0]; [discriminate H0|].
+  rewrite Forall_forall in Hr. exact (Hr y Hy H0).
+Qed.
+
+Lemma texts_no_nul : forall m vs txts, Forall (rt_var_ok m) vs ->
+  all_some (map (slot_text m) vs) = Some txts -> Forall (fun t => ~ In 0%N t) txts.
+Proof.
+  intros m. induction vs as [|v vs IH]; intros txts Hok Ha.
+  - cbn [map all_some] in Ha. injection Ha as <-. constructor.
+  - destruct (all_some_cons_st _ _ _ _ Ha) as (txt & txts' & -> & Hi & Ha').
+    inversion Hok as [|? ? Hokv Hokvs]; subst.
+    destruct (var_facts m v txt Hokv Hi) as (data & _ & Ht & Hdl & _ & Hb & _).
+    constructor; [|exact (IH _ Hokvs Ha')].
+    destruct (C07_no_delim v data txt Hb ltac:(lia) Ht) as (A & _). exact A.
+Qed.
+
+Lemma read_core : forall (w : world) ci c args,
+  g_cmd ATCMD (st w) = Some ci -> cmd_at D ci = Some c -> rt_cmd_ok (mem (st w)) c ->
+  fault (st w) = false -> read_args_text (mem (st w)) c = Some args ->
+  exists s', read_response c w = set_st s' w /\
+    if length (c_name c ++ [ch_EQ] ++ args) <? length (cbuf (st w))
+    then RDone (mem (st w)) s' (c_name c ++ [ch_EQ] ++ args) (length (cbuf (st w)))
+    else RFail (mem (st w)) (length (cbuf (st w))) s'.
+Proof.
+  intros w ci c args Hg Hc (Hne & Hok & _ & Hrd & _) Hf Ha.
+  unfold cmd_at in Hc. unfold read_args_text in Ha.
+  change (fun v : var => match nth_error (mem (st w)) (v_slot v) with
+                         | Some d => var_text v d | None => None end)
+    with (slot_text (mem (st w))) in Ha.
+  destruct (all_some (map (slot_text (mem (st w))) (c_vars c))) as [txts|] eqn:Hall; [|discriminate].
+  injection Ha as <-.
+  destruct (c_vars c) as [|v vs] eqn:Hvs; [congruence|].
+  assert (Hrw : v_access v = RW).
+  { inversion Hok as [|? ? (A & _) _]. exact A. }
+  unfold Lemmas_C07e.read_response. rewrite Hvs.
+  rewrite !app_length. cbn [length].
+  set (w1 := upd_st (start_processing_format_read_args D ATCMD) w).
+  assert (Hst1 : st w1 = start_processing_format_read_args D ATCMD (st w)) by reflexivity.
+  assert (Hw1 : forall s', set_st s' w1 = set_st s' w) by reflexivity.
+  destruct (Nat.lt_ge_cases (length (c_name c) + 1) (length (cbuf (st w)))) as [Hlt|Hge].
+  - destruct (read_start_ok (st w) ci c v vs Hg Hc Hf Hvs Hrw Hlt) as (r & HR & L).
+    rewrite <- Hst1 in HR.
+    destruct (Nat.ltb_spec (length (c_name c) + S (length (join_comma txts)))
+                           (length (cbuf (st w)))) as [Hfit|Hno].
+    + destruct (rloop_ok c (mem (st w)) (nl_chars (st w)) (length (cbuf (st w))) Hrd
+                         vs v [] w1 (c_name c ++ [ch_EQ]) (0%N :: r) txts Hvs Hok HR Hall)
+        as (s' & E & HD).
+      { cbn [length]. lia. }
+      exists s'. rewrite E, Hw1. split; [reflexivity|].
+      rewrite <- app_assoc in HD. exact HD.
+    + destruct (rloop_fail c (mem (st w)) (nl_chars (st w)) (length (cbuf (st w)))
+                         vs v [] w1 (c_name c ++ [ch_EQ]) (0%N :: r) txts Hvs Hok HR Hall)
+        as (s' & E & HD).
+      { cbn [length]. lia. }
+      exists s'. rewrite E, Hw1. split; [reflexivity|exact HD].
+  - pose proof (read_start_fail (st w) ci c Hg Hc Hf Hge) as HF.
+    rewrite <- Hst1 in HF.
+    exists (st w1). split.
+    + rewrite fra_run_stop; [reflexivity|]. destruct HF as (_ & F & _). exact F.
+    + replace (length (c_name c) + S (length (join_comma txts)) <? length (cbuf (st w)))
+        with false by (symmetry; apply Nat.ltb_ge; lia).
+      exact HF.
+Qed.
+
+Theorem C07_read_response : forall (w : world) ci c args,
+  g_cmd ATCMD (st w) = Some ci -> cmd_at D ci = Some c -> rt_cmd_ok (mem (st w)) c ->
+  fault (st w) = false -> read_args_text (mem (st w)) c = Some args ->
+  let txt := c_name c ++ [ch_EQ] ++ args in
+  let w' := read_response c w in
+  mem (st w') = mem (st w) /\ tr w' = tr w /\ hs w' = hs w /\ fault (st w') = false /\
+  k_state (k (st w')) = CS_FLUSH_WAIT /\
+  if length txt <? length (cbuf (st w))
+  then text_of (cbuf (st w')) = txt /\ k_wafter (k (st w')) = CS_AFTER_OK
+  else k_wafter (k (st w')) = CS_AFTER_RESET /\
+       (6 <= length (cbuf (st w)) -> text_of (cbuf (st w')) = txt_ERROR).
+Proof.
+  intros w ci c args Hg Hc Hok Hf Ha txt w'. subst txt w'.
+  destruct (read_core w ci c args Hg Hc Hok Hf Ha) as (s' & E & HD).
+  rewrite E. cbn [Fsm.st Fsm.tr Fsm.hs Fsm.set_st].
+  destruct (length (c_name c ++ [ch_EQ] ++ args) <? length (cbuf (st w))).
+  - destruct HD as (D1 & (r & D2) & D3 & D4 & D5 & D6).
+    repeat split; try assumption; try reflexivity.
+    rewrite D2. apply text_of_app0.
+    destruct Hok as (_ & Hokv & _ & _ & _ & _ & Hname).
+    unfold read_args_text in Ha.
+    change (fun v : var => match nth_error (mem (st w)) (v_slot v) with
+                           | Some d => var_text v d | None => None end)
+      with (slot_text (mem (st w))) in Ha.
+    destruct (all_some (map (slot_text (mem (st w))) (c_vars c))) as [txts|] eqn:Hall; [|discriminate].
+    injection Ha as <-.
+    pose proof (notin0_join txts (texts_no_nul _ _ _ Hokv Hall)) as Hj.
+    intro Hin. apply in_app_or in Hin. destruct Hin as [Hin|Hin]; [exact (Hname Hin)|].
+    destruct Hin as [Hin|Hin]; [discriminate Hin|exact (Hj Hin)].
+  - destruct HD as (F1 & F2 & F3 & F4 & F5).
+    repeat split; assumption.
 Qed.
